@@ -114,3 +114,10 @@ Example C18_pos_calls :
   /\ (let '(r', x) := do_builtin dummy_oracle pos_name (pos_machine [VInt 1; VSng 0]) in x = Ok None /\ r_stack r' = [VInt 0; VRet 5])
   /\ (let '(r', x) := do_builtin dummy_oracle pos_name (pos_machine [VInt 0]) in x = Ok None /\ r_stack r' = [VInt 0; VRet 5]).
 Proof. exact pos_calls. Qed.
+
+(* the arity table itself is the source's: Gen/SourceTables.v is regenerated from Function::opcode_and_arity by tools/tables.py
+   on every run *)
+From BL Require Import Gen.SourceTables Proofs.SourceTables.
+Theorem C18_arities_are_the_sources : forall name, builtin_arity name = assoc_arity name src_arity.
+Proof. exact arities_are_the_sources. Qed.
+Print Assumptions C18_arities_are_the_sources.
